@@ -41,7 +41,7 @@ COMPONENTS = {
              "generated InitInit / ConnectionPlayer / AccountReply server packets (real generator, documented layout) for a sample of outcomes"],
     "stub_or_harness": ["SimRandom (scripted random source)", "outcome-space enumerator"],
 }
-PROBES = ["two_generating_threads_interleaved", "refused_write_elsewhere_before_trip", "switch_field_given_as_plain_int", "components_through_generated_packet", "init_seq2_at_252", "init_seq2_at_0", "init_single_choice_range", "ping_seq2_at_251", "ping_value_max",
+PROBES = ["start_travels_as_reply_code", "two_generating_threads_interleaved", "refused_write_elsewhere_before_trip", "switch_field_given_as_plain_int", "components_through_generated_packet", "init_seq2_at_252", "init_seq2_at_0", "init_single_choice_range", "ping_seq2_at_251", "ping_value_max",
           "account_value_239", "init_value_0", "init_value_max"]
 FAULT_KINDS = ["scripted_draw", "preemption_between_lines"]
 EXHAUSTIVE = False  # set in coverage_extra when the sweep completed
@@ -202,9 +202,15 @@ class _Ctx:
             else:
                 # as documented: every declared reply code has its own case, the start travels in the default case
                 P = self.srv.AccountReplyServerPacket
-                pkt = P(reply_code=self.net.AccountReply(1000),
+                # ... or, as in the real protocol files, AS the reply code itself (any number that is not a declared
+                # code): the peer then hands `packet.reply_code` - an unrecognised value of the enum - to from_value
+                as_code = comps[0] > 3 and comps[0] % 2 == 1
+                if as_code:
+                    self.res.count("probe.start_travels_as_reply_code")
+                code = comps[0] if as_code else 1000
+                pkt = P(reply_code=self.net.AccountReply(code),
                         reply_code_data=P.ReplyCodeDataDefault(sequence_start=comps[0]))
-                want = encode_number(1000, 2) + encode_number(comps[0], 1) + b"OK"
+                want = encode_number(code, 2) + encode_number(comps[0], 1) + b"OK"
             w = self.W()
             pkt.write(w)
             got = bytes(w.to_bytearray())
@@ -214,7 +220,8 @@ class _Ctx:
                 return None
             back = type(pkt).deserialize(self.R(want))
             out = ((back.reply_code_data.seq1, back.reply_code_data.seq2) if gen == "init" else
-                   (back.seq1, back.seq2) if gen == "ping" else (back.reply_code_data.sequence_start,))
+                   (back.seq1, back.seq2) if gen == "ping" else
+                   (back.reply_code,) if as_code else (back.reply_code_data.sequence_start,))
         except Exception as e:  # noqa
             self.fail("wire-trip", gen, f"{gen} components {comps} through the generated packet: {type(e).__name__}: {e}")
             return None
@@ -315,9 +322,14 @@ class _Ctx:
             out = self.packet_trip(gen, comps)
             if out is None:
                 return None
-            back2 = (self.mod.InitSequenceStart.from_init_values(*out) if gen == "init" else
-                     self.mod.PingSequenceStart.from_ping_values(*out) if gen == "ping" else
-                     self.mod.AccountReplySequenceStart.from_value(*out))
+            try:
+                back2 = (self.mod.InitSequenceStart.from_init_values(*out) if gen == "init" else
+                         self.mod.PingSequenceStart.from_ping_values(*out) if gen == "ping" else
+                         self.mod.AccountReplySequenceStart.from_value(*out))
+            except Exception as e:  # noqa
+                self.fail("reconstruction", gen, f"{gen} value {value}: the components as the peer's generated deserializer hands "
+                                                 f"them over ({out!r}) were refused by the from-values function: {type(e).__name__}: {e}")
+                return None
             if back2.value != value:
                 self.fail("reconstruction", gen, f"{gen} value {value} components {comps} through the generated packet "
                                                  f"reconstructed as {back2.value}")
